@@ -438,7 +438,7 @@ func (h *c08History) flush(consumer int) {
 func TestVerifC08(t *testing.T) {
 	r := verifkit.Start(t, "C08", "agent")
 	defer r.Finish()
-	r.SetRule("one case = one history: 2 agents (mapping cache full vs empty/partial, tag order and tag names differ) x 1-3 shards, 60-400 steps of {event, flush iteration with clock step 0..400 s, consumer step}, 10 metrics (resolutions 1,2,5,10,15,30,60; fixed/by-metric/by-tags-hash sharding; two with a secondary shard starting mid-history), shutdown + full flush at the end. Non-trivial = the history delivered >= 10 events and contained a late event, a low-resolution event and (a clock jump > 125 s or a receive-queue gap or a stalled consumer); distinct = distinct operation log.")
+	r.SetRule("one case = one history: 2 agents (mapping cache full vs empty/partial, tag order and tag names differ) x 1-3 shards, 60-400 steps of {event, flush iteration with clock step 0..400 s, consumer step}, 10 metrics (resolutions 1,2,5,10,15,30,60; fixed/by-metric/by-tags-hash sharding; two with a secondary shard starting mid-history), shutdown + full flush at the end; every 5th history starts with 1-4 systematic consumer stalls of 0..12 s (flusher ticking each second, events of mostly low-resolution metrics with future and resolution-aligned timestamps arriving during the stall, a multiple of 60 placed inside the stall). Non-trivial = the history delivered >= 10 events and contained a late event, a low-resolution event and (a clock jump > 125 s or a receive-queue gap or a stalled consumer); distinct = distinct operation log.")
 	if c08RingSlack != 5 {
 		r.Assume(fmt.Sprintf("ring slack derived from the package constants is %d (5 at the pinned commit)", c08RingSlack))
 	}
@@ -491,7 +491,6 @@ func c08RunHistory(r *verifkit.Run, w *verifkit.Worker, idx int) {
 		consumerMode = 0
 	}
 	h.logf("profile=%d consumerMode=%d", profile, consumerMode)
-	h.nextGroup = 1
 	for st := 0; st < steps; st++ {
 		if st == stopAt {
 			for ai := 0; ai < 2; ai++ {
